@@ -640,7 +640,10 @@ def intrLine (line : String) : String :=
     match n.toNat? with
     | some n =>
       let fireAt := if k = "never" then n + 1 else k.toNat?.getD (n + 1)
-      let trace : List Fend.Intr.Ev := (List.range n).flatMap fun i => [.work 1, .poll, .store "v" (Int.ofNat i)]
+      -- events after the poll that fires are never reached (`Fend.C07.fire_interrupts`): a trace cut two polls after it
+      -- gives the same answer and keeps million-poll runs cheap
+      let m := if fireAt < n then min n (fireAt + 2) else n
+      let trace : List Fend.Intr.Ev := (List.range m).flatMap fun i => [.work 1, .poll, .store "v" (Int.ofNat i)]
       let (o, polls, vars, _) := Fend.Intr.run fireAt trace 0 []
       (match o with | .finished => "finished" | .interrupted => "interrupted") ++ s!" polls={polls} stores={vars.length}"
     | none => "bad-op"
